@@ -767,7 +767,8 @@ pub fn build(spec: &RecorderSpec) -> Model {
                     k = 0;
                 }
                 let total = u.size as usize;
-                let blocks = (total + 511) / 512;
+                // (an empty message still takes one, final, block)
+                let blocks = ((total + 511) / 512).max(1);
                 let mut remaining = total;
                 for b in 0..blocks {
                     let mut ev = vec![0u8; 1 + 516];
